@@ -65,6 +65,83 @@ def c_traces(ctx, nprog, levels):
     return out
 
 
+CTYPES = ["char", "signed char", "unsigned char", "short", "unsigned short", "int", "unsigned int", "long",
+          "unsigned long", "long long", "unsigned long long"]
+BINOPS = ["+", "-", "*", "/", "%", "<", "==", "&", "|", "^", "<<", ">>", "&&"]
+FEATURES = [
+    ("ptr_neg_const", "void *p = (void*)-1;"),
+    ("ptr_neg_const_struct", "struct S { int a; void *h; }; struct S s = {1, (void*)-4096};"),
+    ("ptr_to_global", "int v; int *p = &v; int **pp = &p;"),
+    ("ptr_array_elem", "int a[4]; int *p = &a[2];"),
+    ("ptr_string", "char *s = \"abc\"; char t[] = \"xyz\";"),
+    ("ptr_array_of_ptr", "int a, b; int *t[2] = {&a, &b};"),
+    ("ptr_null_cast", "char *p = (char*)0; long q = (long)(char*)8;"),
+    ("fnptr_table", "int f0(int x){return x;} int f1(int x){return -x;} int (*tab[2])(int) = {f0, f1}; int g(int i){ return tab[i&1](i); }"),
+    ("fnptr_typedef", "typedef int (*fn_t)(int); int id(int x){return x;} int ap(fn_t f, int v){ return f(v); } int m(void){ return ap(id, 3); }"),
+    ("union_plain", "union U { int i; char c[4]; }; int f(union U *u){ return u->i + u->c[0]; }"),
+    ("union_selfref_param", "union U { union U *next; int v; }; int f(union U *p){ return p->v; }"),
+    ("union_selfref_ret", "union U { union U *next; int v; }; union U *f(union U *p){ return p->next; }"),
+    ("union_selfref_typedef", "typedef union N { union N **pp; long v; } N; long f(N *p){ return p->v; }"),
+    ("union_selfref_local", "union U { union U *next; int v; }; int f(void){ union U u; u.v = 3; return u.v; }"),
+    ("struct_selfref", "struct L { struct L *next; int v; }; int len(struct L *p){ int n = 0; while (p) { n++; p = p->next; } return n; }"),
+    ("struct_mutual", "struct B; struct A { struct B *b; }; struct B { struct A *a; int v; }; int f(struct A *x){ return x->b->v; }"),
+    ("struct_nested_init", "struct P { int x, y; }; struct R { struct P a, b; }; struct R r = {{1,2},{3,4}}; int f(void){ return r.b.x; }"),
+    ("struct_by_value", "struct P { int x; long y; }; struct P mk(int a){ struct P p; p.x = a; p.y = a; return p; } long use(void){ struct P q = mk(3); return q.y; }"),
+    ("bitfields", "struct F { unsigned a : 3; int b : 5; unsigned c : 1; }; int f(struct F *p){ p->a = 7; p->b = -3; return p->a + p->b + p->c; }"),
+    ("enum_arith", "enum E { A, B = 5, C }; enum E e = C; int f(enum E x){ return x + B; }"),
+    ("typedef_chain", "typedef unsigned char u8; typedef u8 byte_t; typedef byte_t arr_t[4]; arr_t g; int f(void){ return sizeof(arr_t) + g[1]; }"),
+    ("multidim", "int m[2][3][2]; int f(int i){ m[1][2][1] = i; return m[1][i&1][0]; }"),
+    ("long_mix", "long a; unsigned long b; long long c; unsigned long long d; long f(void){ return (a + b) + (c + d) + (a < d) + (c + b); }"),
+    ("ll_ul_cond", "long long a; unsigned long b; int f(void){ return a < b ? 1 : 2; }"),
+    ("ll_ul_init", "unsigned long g = 1LL + 2UL;"),
+    ("char_plain", "char c = -1; int f(void){ return c + (c < 0); }"),
+    ("comma_ternary", "int f(int a, int b){ return (a++, b += a, a > b ? a : b); }"),
+    ("goto_loop", "int f(int n){ int s = 0; top: if (n > 0) { s += n; n--; goto top; } return s; }"),
+    ("switch_dense", "int f(int x){ switch (x) { case 0: return 5; case 1: case 2: return 6; case 7: x++; default: return x; } }"),
+    ("do_while_continue", "int f(int n){ int s = 0; do { n--; if (n & 1) continue; s += n; } while (n > 0); return s; }"),
+    ("static_local", "int f(void){ static int k = 3; static int *p = &k; return k++ + *p; }"),
+    ("sizeof_forms", "struct S { char c; long l; }; int f(void){ int a[7]; return sizeof a + sizeof(struct S) + sizeof(int*) + sizeof(a[0]); }"),
+    ("ptr_arith", "int a[8]; int f(int *p, int i){ int *q = p + i; return (int)(q - a) + *(q - 1) + q[1]; }"),
+    ("void_ptr_cast", "int f(void *v){ int *p = (int*)v; char *c = (char*)v; return *p + c[1]; }"),
+    ("array_param", "int f(int a[], int n){ int s = 0; for (int i = 0; i < n; i++) s += a[i]; return s; }"),
+    ("const_volatile", "const int k = 4; volatile int v; int f(void){ v = k; return v + k; }"),
+    ("neg_array_init", "signed char t[3] = {-1, -128, 127}; short u[2] = {-32768, 32767};"),
+    ("compound_literal_like", "struct P { int x, y; }; int f(void){ struct P p = {1, 2}; struct P q = p; return q.x + q.y; }"),
+    ("nested_calls", "int g(int a, int b){ return a - b; } int f(int x){ return g(g(x, 1), g(2, x)); }"),
+    ("recursion", "int fib(int n){ return n < 2 ? n : fib(n-1) + fib(n-2); }"),
+    ("unsigned_wrap", "unsigned f(unsigned a){ return a * 0x10001u + (a >> 31) + (-a); }"),
+    ("casts_all", "long f(long x){ return (char)x + (unsigned char)x + (short)x + (unsigned short)x + (int)x + (unsigned)x; }"),
+]
+
+
+def feature_traces(ctx):
+    out = []
+    for name, snip in FEATURES:
+        for march in ("x86_64", "arm"):
+            ev, _, msg = pipeline.run_pipeline(lambda snip=snip, march=march: optcorpus.compile_c(snip + "\n", march), None, "2")
+            out.append({"id": "C28:c:feature:%s:%s" % (name, march), "claim": "C28", "events": ev, "msg": msg, "src": snip})
+    # every pair of integer types under every binary operator (usual arithmetic conversions table)
+    for t1 in CTYPES:
+        for t2 in CTYPES:
+            body = "\n".join("int f%d(void){ return (int)(a %s b); }" % (k, op) for k, op in enumerate(BINOPS))
+            body += "\nint g(void){ return (int)(a < b ? a : b); }"
+            unit = "%s a; %s b;\n%s\n" % (t1, t2, body)
+            for march in ("x86_64", "arm"):
+                ev, _, msg = pipeline.run_pipeline(lambda unit=unit, march=march: optcorpus.compile_c(unit, march), None, "0")
+                if ev[-1]["out"] not in ("ok",):
+                    # isolate the operator(s) that fail
+                    for k, op in enumerate(BINOPS + ["?:"]):
+                        one = "%s a; %s b;\nint f(void){ return (int)(%s); }\n" % (
+                            t1, t2, "a < b ? a : b" if op == "?:" else "a %s b" % op)
+                        ev1, _, msg1 = pipeline.run_pipeline(lambda one=one, march=march: optcorpus.compile_c(one, march), None, "0")
+                        out.append({"id": "C28:c:typemix:%s,%s:%s:%s" % (t1.replace(" ", "_"), t2.replace(" ", "_"), op, march),
+                                    "claim": "C28", "events": ev1, "msg": msg1, "src": one})
+                else:
+                    out.append({"id": "C28:c:typemix:%s,%s:all:%s" % (t1.replace(" ", "_"), t2.replace(" ", "_"), march),
+                                "claim": "C28", "events": ev, "msg": msg, "src": unit})
+    return out
+
+
 def ir_text(m):
     from ppci.irutils import writer
 
@@ -137,6 +214,7 @@ class Engine:
         ctx.assume("an exception of class CompilerError (incl. subclasses) or IrParseException is a diagnostic; anything else is internal")
         ctx.assume("C3 inputs come from engines/c37.py: c28_traces (generated valid programs and constraint-violating variants)")
         trs = c_traces(ctx, 6 if q else 60, ("0", "2") if q else ("0", "1", "2", "s")) + ir_traces(ctx, 12 if q else 150)
+        trs += feature_traces(ctx)
         try:
             from engines import c37
 
